@@ -25,12 +25,20 @@
    or reported, so Evaluate is nondeterministic.
 
    Named deviations (CONSTANT Deviations):
-     crash.*     classes of programs on which the real code panics / overflows its stack (found by this check);
-                 each has a declarative trigger over the program.  Enabled -> Evaluate may answer "panic".
-     accept.*    classes of dangling references the real code accepts.  Enabled -> Evaluate may accept them.
-     report.*    classes of programs whose errors do not name an expression.
-     handoff.*   accepted programs for which generation / compilation fails (that is property C01's business;
-                 recorded, not judged here). *)
+     crash.*     classes of programs on which the real code panics / overflows its stack; each has a declarative
+                 trigger over the program (Triggered).  Enabled -> Evaluate may answer "panic" on a triggering program.
+                 Found by this check on the unchanged tree (a repair exists for each, /tmp/fixes/c12-*.patch):
+                   crash.server_outside_api, crash.security_no_args, crash.extend_reference_nil, crash.nil_dsl_in_wrapper,
+                   crash.service_redefined_nil_dsl, crash.response_attr_not_in_view, crash.iscompatible_nil, crash.base_cycle,
+                   crash.cookie_attribute_without_cookie, crash.mapped_attribute_empty_dsl, crash.unknown_view_on_result_type,
+                   crash.extend_collection, crash.error_response_headers_undeclared_error, crash.grpc_message_empty_dsl,
+                   crash.grpc_message_attr_not_in_payload, crash.body_empty_dsl
+     accept.*    kinds of dangling references the real code accepts.  Enabled -> Evaluate may accept them.
+                 Found: accept.body_attribute (Body(func) attributes with an empty payload), accept.response_tag (Tag on a
+                 result attribute that does not exist).  The other kinds exist for the vacuity check of the invariant.
+     report.unnamed   rejected programs whose errors do not name an expression (not observed).
+     handoff.fails    accepted programs for which generation / compilation fails (property C01's business; recorded,
+                      not judged here). *)
 EXTENDS Integers, Sequences, FiniteSets, TLC
 
 CONSTANTS Deviations,     \* named departures of the code from the design that are switched on
